@@ -40,8 +40,10 @@ class MultiStub:
                 c.reals("be%d_xEqA" % k, self.nel, (0.01, 0.2)), c.reals("be%d_xEqB" % k, self.nel, (0.2, 0.8)))
 
 
-def faults_multi(ctx, nph=2, ncls=2, nel=2, have_growth=True):
+def faults_multi(ctx, nph=2, ncls=2, nel=2, have_growth=True, no_tables=False):
     m, info = mk_kwn(ctx, nph, nel, ncls, hist=1)
+    if no_tables:       # the state setup() leaves behind when none of its backend calls converged
+        m.PSDXalpha = [None for _ in range(nph)]; m.PSDXbeta = [None for _ in range(nph)]
     faults = [ctx.boolean("fault%d" % k) for k in range(nph)]
     m.therm = MultiStub(ctx, nel, faults)
     m.removeCache = False
@@ -64,7 +66,19 @@ def faults_multi(ctx, nph=2, ncls=2, nel=2, have_growth=True):
         ctx.observe("growth%d" % p, growth[p])
     ctx.prove("equilibrium composition blocks have the documented shape", np.shape(Y2.xEqAlpha) == (1, nph, nel) and np.shape(Y2.xEqBeta) == (1, nph, nel))
     for p in range(nph):
+        if no_tables and bool(ctx.all([dGs[p] < 0, dens[p] <= 0])):
+            continue        # phase skipped (no precipitates, negative driving force): nothing reads its table
         ctx.prove("interfacial composition tables follow the grid", np.shape(m.PSDXalpha[p]) == (ncls + 1, nel) and np.shape(m.PSDXbeta[p]) == (ncls + 1, nel))
+    if no_tables:
+        # the step that follows books the precipitates' solute with these tables: no internal error
+        xs = [ctx.reals("newN%d" % p, ncls, (2.0, 4.0)) for p in range(nph)]
+        for p in range(nph):
+            for i in range(ncls):
+                ctx.assume(xs[p][i] > 1)
+        ok_tables = all(m.PSDXbeta[p] is not None for p in range(nph) if not bool(ctx.all([dGs[p] < 0, dens[p] <= 0])))
+        if all(m.PSDXbeta[p] is not None for p in range(nph)) or not ok_tables:
+            Y3 = m._calcMassBalance(ctx.real("t_next", (0.1, 1.0)), xs, m.pData.copySlice(0))
+            ctx.prove("mass balance after the faulty start completes", np.shape(Y3.fconc) == (1, nph, nel))
     # which backend call belongs to which phase (phases that are skipped do not call the backend)
     k = 0
     for p in range(nph):
@@ -109,35 +123,132 @@ def setup_faults(ctx, nph=1, ncls=2, nel=2):
     ctx.prove("histories have one aligned record", all(len(getattr(m.pData, a)) == 1 for a in PrecipitationData.ATTRIBUTES))
 
 
-def update_psd_faults(ctx, nph=1, ncls=2, nel=2, remesh=False):
+def update_psd_faults(ctx, nph=1, ncls=2, nel=2, remesh=False, mode="any", recording=False):
     """real _updateParticleSizeDistribution (multicomponent) when the grid is extended / re-meshed and the backend call that follows
-    fails: growth arrays and composition tables keep following the grid"""
+    fails: growth arrays and composition tables keep following the grid, the tables continue from the last valid values (they are what the
+    next mass balance books the precipitates' solute with), and the PSD record stays aligned with the steps.
+    mode: "any" grid symbolic, every branch of the automatic adjustment open; "append" the last class is filled and not every boundary
+    shrinks (classes are appended); "remesh" concrete grid, more classes than maxBins (re-mesh: the table is interpolated)"""
     m, info = mk_kwn(ctx, nph, nel, ncls, hist=1)
     faults = [ctx.boolean("fault%d" % k) for k in range(3 * nph)]
     m.therm = MultiStub(ctx, nel, faults)
     m.removeCache = False
+    remesh = remesh or mode == "remesh"
     for p in range(nph):
         m.precipitateParameters[p]._gamma = 0.1
         m.PBM[p].originalBins = 4
         m.PBM[p].maxBins = (ncls + 1) if remesh else 10 * ncls
         m.PBM[p].minBins = 2
         m.PBM[p].getDissolutionIndex = lambda *a, **k: 0      # C07.diss_index; its cubic comparisons only slow path exploration down here
+        if mode == "remesh":
+            m.PBM[p].min, m.PBM[p].max = 1.0, 1.0 + 0.5 * ncls      # concrete grid: the interpolation onto the new grid is then branch-free
+            m.PBM[p].reset(False)
+            m.PBM[p].PSD = info["psd_prev"][p]
+        if recording:
+            m.PBM[p].enableRecording()
     m.growth = [ctx.reals("prev_growth%d" % p, ncls + 1, (-1.0, 1.0)) for p in range(nph)]
     m.pData.drivingForce = ctx.reals("dG", (1, nph), (-1.0, 1.0)); m.pData.precipitateDensity = ctx.reals("dens", (1, nph), (0.5, 2.0))
     m.pData.xEqAlpha = ctx.reals("rec_xEqA", (1, nph, nel), (0.01, 0.2)); m.pData.xEqBeta = ctx.reals("rec_xEqB", (1, nph, nel), (0.2, 0.8))
     for p in range(nph):
-        ctx.assume(m.pData.drivingForce[0, p] >= 0); ctx.assume(m.pData.precipitateDensity[0, p] > 0)
+        if not recording:
+            ctx.assume(m.pData.drivingForce[0, p] >= 0)
+        ctx.assume(m.pData.precipitateDensity[0, p] > 0)
+    if recording:
+        for p in range(nph):
+            for e in range(nel):
+                m.pData.xEqAlpha[0, p, e] = 0.0     # with a negative driving force this is the "phase was reset" marker
     m.constraints.minRadius = 0.0
     x = [ctx.reals("x%d" % p, ncls, (0.0, 4.0)) for p in range(nph)]
     for p in range(nph):
         for i in range(ncls):
             ctx.assume(x[p][i] >= 0)
-    m._updateParticleSizeDistribution(ctx.real("t", (0.1, 1.0)), x)
+        if mode in ("append", "remesh"):
+            ctx.assume(x[p][ncls - 1] > 1); ctx.assume(m.growth[p][0] > 0)
+    old_tab = [(np.array([[m.PSDXalpha[p][i, e] * 1 for e in range(nel)] for i in range(ncls + 1)], dtype=object),
+                np.array([[m.PSDXbeta[p][i, e] * 1 for e in range(nel)] for i in range(ncls + 1)], dtype=object)) for p in range(nph)]
+    t = ctx.real("t", (0.1, 1.0))
+    m._updateParticleSizeDistribution(t, x)
     for p in range(nph):
         nb = m.PBM[p].bins
         ctx.prove("growth array follows the (possibly changed) grid", np.shape(m.growth[p]) == (nb + 1,))
         ctx.prove("interfacial composition tables follow the (possibly changed) grid", np.shape(m.PSDXalpha[p]) == (nb + 1, nel) and np.shape(m.PSDXbeta[p]) == (nb + 1, nel))
         ctx.prove("distribution follows the grid", len(m.PBM[p].PSD) == nb)
+        if recording:
+            ctx.prove("PSD record has one entry for this step, whatever happened to the phase",
+                      len(m.PBM[p]._recordedTime) == 2 and bool(ctx.eq(m.PBM[p]._recordedTime[-1], t)))
+    if mode in ("append", "remesh") and not recording and np.shape(m.PSDXbeta[0]) == (m.PBM[0].bins + 1, nel):
+        # which backend call refreshed the tables: phase 0's grid change triggers one _growthRate (a call per phase); with one phase that is call 0
+        calls = m.therm.calls
+        ctx.prove("the grid changed and the growth rates were recomputed", m.PBM[0].bins != ncls and len(calls) >= nph)
+        if nph == 1 and len(calls) >= 1 and m.PBM[0].bins != ncls:
+            nb = m.PBM[0].bins
+            if bool(faults[len(calls) - 1]):
+                oa, ob = old_tab[0]
+                if mode == "append":
+                    ctx.prove("refresh failed after classes were appended: existing classes keep their last valid interfacial compositions",
+                              ctx.all([ctx.eq(m.PSDXalpha[0][i, e], oa[i, e]) for i in range(ncls + 1) for e in range(nel)] +
+                                      [ctx.eq(m.PSDXbeta[0][i, e], ob[i, e]) for i in range(ncls + 1) for e in range(nel)]))
+                    ctx.prove("refresh failed after classes were appended: new classes continue from the largest previous class",
+                              ctx.all([ctx.eq(m.PSDXbeta[0][i, e], ob[ncls, e]) for i in range(ncls + 1, nb + 1) for e in range(nel)]))
+                else:
+                    for e in range(nel):
+                        lo = ctx.ite(ob[0, e] <= ob[1, e], ob[0, e], ob[1, e]); hi = ctx.ite(ob[0, e] <= ob[1, e], ob[1, e], ob[0, e])
+                        for i in range(2, ncls + 1):
+                            lo = ctx.ite(lo <= ob[i, e], lo, ob[i, e]); hi = ctx.ite(hi <= ob[i, e], ob[i, e], hi)
+                        ctx.prove("refresh failed after a re-mesh: the table continues from the last valid values (between their extremes), it is not forgotten",
+                                  ctx.all([ctx.all([ctx.le(lo, m.PSDXbeta[0][i, e]), ctx.le(m.PSDXbeta[0][i, e], hi)]) for i in range(nb + 1)]))
+
+
+def update_psd_binary_faults(ctx, ncls=2):
+    """real _updateParticleSizeDistribution (binary): classes are appended and the backend answers the "no result" sentinel -1 for some
+    of the new classes (symbolic bits): the lookup table holds no sentinel afterwards, the failed classes continue from the last valid class,
+    and the growth rate computed from the table is defined"""
+    m, info = mk_kwn(ctx, 1, 1, ncls, hist=1)
+    pp = m.precipitateParameters[0]
+    pp._gamma = 0.1; pp.nucleation._gamma = 0.1
+    m.PBM[0].originalBins = 4; m.PBM[0].maxBins = 10 * ncls; m.PBM[0].minBins = 2
+    m.PBM[0].getDissolutionIndex = lambda *a, **k: 0
+    asked = []
+
+    class Th:
+        numElements = 2
+
+        def getInterfacialComposition(s, T, gExtra=0, precPhase=None):
+            n = len(np.atleast_1d(gExtra))
+            k = len(asked); asked.append(n)
+            xa = ctx.reals("new%d_xA" % k, n, (0.01, 0.2)); xb = ctx.reals("new%d_xB" % k, n, (0.2, 0.8))
+            for i in range(n):
+                ctx.assume(xa[i] > 0); ctx.assume(xb[i] > xa[i])
+                if ctx.boolean("new%d_failed%d" % (k, i)):
+                    xa[i] = -1.0; xb[i] = -1.0
+            return xa, xb
+
+        def getInterdiffusivity(s, x, T, removeCache=False):
+            return ctx.real("D_%d" % len(asked), (0.1, 2.0))
+    m.therm = Th()
+    m.removeCache = False
+    m.matrixParameters.effectiveDiffusion.isEnabled = False
+    m.RdrivingForceIndex = np.zeros(1, dtype=np.int32)
+    for i in range(ncls + 1):       # the table in force is valid
+        ctx.assume(m.PSDXalpha[0][i, 0] > 0); ctx.assume(m.PSDXbeta[0][i, 0] > m.PSDXalpha[0][i, 0])
+    old = [(m.PSDXalpha[0][i, 0] * 1, m.PSDXbeta[0][i, 0] * 1) for i in range(ncls + 1)]
+    m.growth = [ctx.reals("prev_growth", ncls + 1, (0.1, 1.0))]
+    ctx.assume(m.growth[0][0] > 0)
+    m.pData.drivingForce = ctx.reals("dG", (1, 1), (0.1, 1.0)); ctx.assume(m.pData.drivingForce[0, 0] > 0)
+    m.pData.temperature = ctx.reals("T", 1, (500.0, 900.0))
+    m.pData.xEqAlpha = ctx.reals("rec_xEqA", (1, 1, 1), (0.01, 0.2)); m.pData.xEqBeta = ctx.reals("rec_xEqB", (1, 1, 1), (0.2, 0.8))
+    m.constraints.minRadius = 0.0
+    m.dTemp = 0
+    x = [ctx.reals("x0", ncls, (1.5, 4.0))]
+    for i in range(ncls):
+        ctx.assume(x[0][i] > 1)
+    m._updateParticleSizeDistribution(ctx.real("t", (0.1, 1.0)), x)
+    nb = m.PBM[0].bins
+    ctx.prove("classes were appended and the table follows the grid", nb == ncls + 1 and np.shape(m.PSDXalpha[0]) == (nb + 1, 1) and np.shape(m.PSDXbeta[0]) == (nb + 1, 1))
+    if nb == ncls + 1 and np.shape(m.PSDXalpha[0]) == (nb + 1, 1):
+        ctx.prove("no sentinel is left in the lookup table", ctx.all([ctx.all([m.PSDXalpha[0][i, 0] > 0, m.PSDXbeta[0][i, 0] > 0]) for i in range(nb + 1)]))
+        ctx.prove("classes that existed before keep their table entries", ctx.all([ctx.all([ctx.eq(m.PSDXalpha[0][i, 0], old[i][0]), ctx.eq(m.PSDXbeta[0][i, 0], old[i][1])]) for i in range(ncls)]))
+        ctx.prove("growth array follows the grid", np.shape(m.growth[0]) == (nb + 1,))
 
 
 class BinStub:
@@ -275,14 +386,22 @@ _A = ["real arithmetic; finiteness of values that come out of pycalphad is outsi
 HARNESSES = [
     Harness("C03.faults_multi", faults_multi, functions=_F, assumptions=_A, stubs=["therm.getGrowthAndInterfacialComposition: fresh symbolic arrays of the documented shapes, or None per fault bit"],
             bounds={"phases": "nph", "classes": "ncls", "solutes": "nel"},
-            params={"quick": [{"nph": 1, "ncls": 2, "nel": 2}, {"nph": 2, "ncls": 2, "nel": 2}], "thorough": [{"nph": 3, "ncls": 3, "nel": 2}, {"nph": 2, "ncls": 2, "nel": 3}]}),
+            params={"quick": [{"nph": 1, "ncls": 2, "nel": 2}, {"nph": 2, "ncls": 2, "nel": 2}, {"nph": 1, "ncls": 2, "nel": 2, "no_tables": True}],
+                    "thorough": [{"nph": 3, "ncls": 3, "nel": 2}, {"nph": 2, "ncls": 2, "nel": 3}, {"nph": 2, "ncls": 2, "nel": 2, "no_tables": True}]}),
     Harness("C03.setup_faults", setup_faults, functions=_F + [PrecipitateModel.setup, PrecipitateBase.setup], assumptions=_A[:2] + ["the very first backend calls (made by setup()) may fail: no previous growth rate exists yet"],
             stubs=["as C03.faults_multi; _calcNucleationRate writes a symbolic driving force"],
             params={"quick": [{"nph": 1, "ncls": 2, "nel": 2}, {"nph": 2, "ncls": 2, "nel": 2}], "thorough": [{"nph": 3, "ncls": 3, "nel": 2}]}),
     Harness("C03.update_psd_faults", update_psd_faults, functions=_F + [PrecipitateModel._updateParticleSizeDistribution, PBM.adjustSizeClassesEuler, PrecipitateModel._getdXdt],
             assumptions=_A + ["driving force >= 0 and precipitates present (the re-binning branch)"], stubs=["as C03.faults_multi"],
             opts={"ob_timeout": 30.0}, budget={"quick": 150.0, "thorough": 1200.0},
-            params={"quick": [{"nph": 1, "ncls": 2, "nel": 2}], "thorough": [{"nph": 2, "ncls": 2, "nel": 2, "_shards": 8}, {"nph": 1, "ncls": 2, "nel": 2, "remesh": True, "_shards": 8}, {"nph": 1, "ncls": 3, "nel": 2, "_shards": 4}]}),
+            params={"quick": [{"nph": 1, "ncls": 2, "nel": 2, "mode": "append"}, {"nph": 1, "ncls": 2, "nel": 2, "mode": "remesh"}, {"nph": 1, "ncls": 2, "nel": 2, "mode": "append", "recording": True}],
+                    "thorough": [{"nph": 1, "ncls": 2, "nel": 2, "_shards": 8}, {"nph": 2, "ncls": 2, "nel": 2, "mode": "append", "_shards": 8}, {"nph": 1, "ncls": 2, "nel": 2, "remesh": True, "_shards": 8},
+                                 {"nph": 1, "ncls": 3, "nel": 2, "mode": "remesh"}, {"nph": 2, "ncls": 2, "nel": 2, "mode": "append", "recording": True, "_shards": 4}]}),
+    Harness("C03.update_psd_binary_faults", update_psd_binary_faults, functions=_F + [PrecipitateModel._updateParticleSizeDistribution, PBM.adjustSizeClassesEuler],
+            assumptions=_A + ["the table in force is valid (positive compositions); the last class is filled so that classes are appended"],
+            stubs=["therm.getInterfacialComposition: fresh symbolic values, -1 for the appended classes whose symbolic fault bit is set"],
+            opts={"ob_timeout": 30.0}, budget={"quick": 120.0, "thorough": 600.0},
+            params={"quick": [{"ncls": 2}], "thorough": [{"ncls": 3}]}),
     Harness("C03.transport_any_radius", _c07.nuc_class, functions=[PBM.getdXdtEuler, PBM.correctdXdtEuler],
             assumptions=["as C07.nuc_class: the nucleation radius is unconstrained (inside, below or above the grid); no internal error on any path"],
             params={"quick": [{"n": 2}], "thorough": [{"n": 3}]}),
